@@ -2064,13 +2064,23 @@ class Deb822ParagraphElement(Deb822Element, Deb822ParagraphToStrWrapperMixin, AB
         assert isinstance(paragraph, Deb822NoDuplicateFieldsParagraphElement)
         value = paragraph.get_kvpair_element(field_name)
         assert value is not None
+        moved_comment = None
         if preserve_original_field_comment:
             if original:
-                value.comment_element = original.comment_element
+                moved_comment = original.comment_element
+                value.comment_element = moved_comment
                 original.comment_element = None
         elif field_comment is not None:
             value.comment_element = field_comment
-        self.set_kvpair_element(item, value)
+        try:
+            self.set_kvpair_element(item, value)
+        except (KeyError, ValueError):
+            # The key was refused (e.g. a name token that is not one of this
+            # paragraph's own): the field keeps the comment taken from it.
+            if moved_comment is not None:
+                value.comment_element = None
+                original.comment_element = moved_comment
+            raise
 
     @overload
     def dump(self,
